@@ -21,6 +21,13 @@ map to the same normal form as the code they were derived from and therefore do 
   N8  argument passing               positional arguments (beyond the first) of calls to project functions whose
                                      parameter list is unambiguous are written as keywords
   N9  annotated assignment           `x: T = v` inside functions -> `x = v`
+  N10–N14                            (documented at their definitions: keyword defaults, alias / pure-read propagation, tuple
+                                     assignment split, span()/dict()/tuple-index spellings, copy coalescing)
+  N16 operator callables             `methodcaller("m", *a, k=v)` -> `lambda o: o.m(*a, k=v)`, `attrgetter("a.b")` -> `lambda o: o.a.b`,
+                                     `itemgetter(k)` -> `lambda o: o[k]` (arguments plain names / constants only)
+  N15 emptiness tests                `len(v) == 0` -> `not v`, `len(v) > 0 | != 0 | >= 1` -> `v` in test positions, only for
+                                     a local whose every binding is a builtin collection (display, comprehension,
+                                     set()/list()/dict()/tuple()/frozenset()/sorted() call), for which the two are equal
 """
 from __future__ import annotations
 
@@ -281,6 +288,7 @@ class FunctionNormalizer:
             return
         for _ in range(6):
             self.changed = False
+            self.len_tests(fn)
             self._count(fn)
             self.alias_attributes(fn)
             self.coalesce_copies(fn)
@@ -305,6 +313,63 @@ class FunctionNormalizer:
             elif isinstance(n, (ast.Global, ast.Nonlocal)):
                 for x in n.names:
                     self.n_stores[x] += 5
+
+    # ---- N15: emptiness tests of a local that is always a builtin collection: `len(v) == 0` -> `not v`, `len(v) > 0` -> `v`
+    _COLLECTION_CALLS = {"set", "list", "dict", "tuple", "frozenset", "sorted"}
+
+    def len_tests(self, fn) -> None:
+        stores: Dict[str, List[Optional[ast.expr]]] = {}
+        for n in ast.walk(fn):
+            if isinstance(n, ast.Assign) and len(n.targets) == 1 and isinstance(n.targets[0], ast.Name):
+                stores.setdefault(n.targets[0].id, []).append(n.value)
+            elif isinstance(n, ast.AnnAssign) and isinstance(n.target, ast.Name) and n.value is not None:
+                stores.setdefault(n.target.id, []).append(n.value)
+            elif isinstance(n, ast.Name) and isinstance(n.ctx, (ast.Store, ast.Del)):
+                stores.setdefault(n.id, [])
+            elif isinstance(n, ast.arg):
+                stores.setdefault(n.arg, []).append(None)
+            elif isinstance(n, (ast.Global, ast.Nonlocal)):
+                for x in n.names:
+                    stores.setdefault(x, []).append(None)
+        n_name_stores: Dict[str, int] = {}
+        for n in ast.walk(fn):
+            if isinstance(n, ast.Name) and isinstance(n.ctx, (ast.Store, ast.Del)):
+                n_name_stores[n.id] = n_name_stores.get(n.id, 0) + 1
+
+        def collection(v) -> bool:
+            while isinstance(v, ast.Call) and norm(v.func) in ("cast", "typing.cast") and len(v.args) == 2:
+                v = v.args[1]
+            return isinstance(v, (ast.List, ast.Set, ast.Dict, ast.Tuple, ast.ListComp, ast.SetComp, ast.DictComp)) or (
+                isinstance(v, ast.Call) and isinstance(v.func, ast.Name) and v.func.id in self._COLLECTION_CALLS)
+        coll = {k for k, vs in stores.items() if vs and len(vs) == n_name_stores.get(k, 0) and all(v is not None and collection(v) for v in vs)}
+        if not coll:
+            return
+        me = self
+
+        def rewrite(e: ast.expr) -> ast.expr:
+            if isinstance(e, ast.BoolOp):
+                e.values = [rewrite(v) for v in e.values]
+                return e
+            if isinstance(e, ast.UnaryOp) and isinstance(e.op, ast.Not):
+                e.operand = rewrite(e.operand)
+                return e
+            if isinstance(e, ast.Compare) and len(e.ops) == 1 and isinstance(e.comparators[0], ast.Constant) and type(e.comparators[0].value) is int \
+                    and isinstance(e.left, ast.Call) and norm(e.left.func) == "len" and len(e.left.args) == 1 and isinstance(e.left.args[0], ast.Name) \
+                    and e.left.args[0].id in coll:
+                k, op, v = e.comparators[0].value, type(e.ops[0]), e.left.args[0]
+                if (k, op) in ((0, ast.Eq), (0, ast.LtE), (1, ast.Lt)):
+                    me.changed = True
+                    return _loc(ast.UnaryOp(op=ast.Not(), operand=v), e)
+                if (k, op) in ((0, ast.NotEq), (0, ast.Gt), (1, ast.GtE)):
+                    me.changed = True
+                    return v
+            return e
+
+        for n in ast.walk(fn):
+            if isinstance(n, (ast.If, ast.While, ast.IfExp, ast.Assert)):
+                n.test = rewrite(n.test)
+            elif isinstance(n, ast.comprehension):
+                n.ifs = [rewrite(i) for i in n.ifs]
 
     # ---- N11: a local alias of an attribute chain (`t = self.x`) is replaced by the chain where nothing can have rebound it
     def alias_attributes(self, fn) -> None:
@@ -1153,6 +1218,29 @@ class _Consumers(ast.NodeTransformer):
             return _loc(ast.Call(func=_loc(ast.Attribute(value=v.func.value, attr="start" if n.slice.value == 0 else "end", ctx=ast.Load()), n), args=[], keywords=[]), n)
         return n
 
+    @staticmethod
+    def _operator_lambda(n):
+        """operator.methodcaller / attrgetter / itemgetter with plain (name or constant) arguments, as the lambda they stand for."""
+        if not isinstance(n, ast.Call):
+            return None
+        fq = norm(n.func)
+        plain = lambda x: isinstance(x, (ast.Name, ast.Constant)) or (isinstance(x, ast.Starred) and isinstance(x.value, ast.Name))
+        if fq in ("methodcaller", "operator.methodcaller") and n.args and isinstance(n.args[0], ast.Constant) and isinstance(n.args[0].value, str) \
+                and n.args[0].value.isidentifier() and all(plain(a) for a in n.args[1:]) and all(plain(k.value) for k in n.keywords):
+            recv = _loc(ast.Name(id="_obj", ctx=ast.Load()), n)
+            call = _loc(ast.Call(func=_loc(ast.Attribute(value=recv, attr=n.args[0].value, ctx=ast.Load()), n), args=n.args[1:], keywords=n.keywords), n)
+            return _loc(ast.Lambda(args=ast.arguments(posonlyargs=[], args=[ast.arg(arg="_obj")], kwonlyargs=[], kw_defaults=[], defaults=[]), body=call), n)
+        if fq in ("attrgetter", "operator.attrgetter") and len(n.args) == 1 and not n.keywords and isinstance(n.args[0], ast.Constant) and isinstance(n.args[0].value, str) \
+                and all(p_.isidentifier() for p_ in n.args[0].value.split(".")):
+            body = _loc(ast.Name(id="_obj", ctx=ast.Load()), n)
+            for p_ in n.args[0].value.split("."):
+                body = _loc(ast.Attribute(value=body, attr=p_, ctx=ast.Load()), n)
+            return _loc(ast.Lambda(args=ast.arguments(posonlyargs=[], args=[ast.arg(arg="_obj")], kwonlyargs=[], kw_defaults=[], defaults=[]), body=body), n)
+        if fq in ("itemgetter", "operator.itemgetter") and len(n.args) == 1 and not n.keywords and plain(n.args[0]) and not isinstance(n.args[0], ast.Starred):
+            body = _loc(ast.Subscript(value=_loc(ast.Name(id="_obj", ctx=ast.Load()), n), slice=n.args[0], ctx=ast.Load()), n)
+            return _loc(ast.Lambda(args=ast.arguments(posonlyargs=[], args=[ast.arg(arg="_obj")], kwonlyargs=[], kw_defaults=[], defaults=[]), body=body), n)
+        return None
+
     def visit_Call(self, n):
         self.generic_visit(n)
         name = n.func.id if isinstance(n.func, ast.Name) else (n.func.attr if isinstance(n.func, ast.Attribute) else None)
@@ -1162,6 +1250,10 @@ class _Consumers(ast.NodeTransformer):
             return _loc(ast.DictComp(key=a.elt.elts[0], value=a.elt.elts[1], generators=a.generators), n)   # dict((k, v) for …) is {k: v for …}
         if norm(n.func) in ("cast", "typing.cast") and len(n.args) == 2 and not n.keywords:
             return n.args[1]  # typing.cast is the identity at run time
+        # N16 (only where the callable is handed straight to another call, so creation and use see the same bindings)
+        n.args = [self._operator_lambda(a) or a for a in n.args]
+        for k in n.keywords:
+            k.value = self._operator_lambda(k.value) or k.value
         fs = _format_to_fstring(n)
         if fs is not None:
             return self.generic_visit(_loc(fs, n)) if False else _loc(fs, n)
